@@ -90,6 +90,10 @@ type ChanEngine struct {
 	makes  map[*types.Var][]*MakeSite
 	// assignments var <- var (flow-insensitive copies: x = y, T{f: y}, f(y) param binding)
 	copies map[*types.Var][]*types.Var
+	// make sites stored into elements of a container variable (m[k] = make(chan..), append(s, make(..)))
+	elemMakes map[*types.Var][]*MakeSite
+	// range value variable -> container variable it iterates
+	elemOf map[*types.Var]*types.Var
 	gos    []*GoSite
 }
 
@@ -109,7 +113,8 @@ func chanEngine(p *Prog) *ChanEngine {
 	}
 	ce := &ChanEngine{P: p, selOf: map[*ast.SelectStmt]*SelectInfo{},
 		sends: map[*types.Var][]*ChanOp{}, closes: map[*types.Var][]*ChanOp{}, recvs: map[*types.Var][]*ChanOp{},
-		makes: map[*types.Var][]*MakeSite{}, copies: map[*types.Var][]*types.Var{}}
+		makes: map[*types.Var][]*MakeSite{}, copies: map[*types.Var][]*types.Var{},
+		elemMakes: map[*types.Var][]*MakeSite{}, elemOf: map[*types.Var]*types.Var{}}
 	for _, f := range p.Funcs {
 		ce.scanFunc(f)
 	}
@@ -236,6 +241,15 @@ func (ce *ChanEngine) scanFunc(f *FuncInfo) {
 			if _, ok := chanElem(in.TypeOf(x.X)); ok {
 				addOp(&ChanOp{Kind: OpRange, Node: x, Chan: x.X})
 			}
+			if x.Value != nil {
+				if vv, ok := objOf(in, x.Value).(*types.Var); ok {
+					if _, isChan := chanElem(vv.Type()); isChan {
+						if cr := ce.refOf(f, x.X); cr.Var != nil && !cr.Elem {
+							ce.elemOf[vv] = cr.Var
+						}
+					}
+				}
+			}
 		case *ast.CallExpr:
 			if isBuiltin(in, x, "close") && len(x.Args) == 1 {
 				addOp(&ChanOp{Kind: OpClose, Node: x, Chan: x.Args[0]})
@@ -333,6 +347,8 @@ func (ce *ChanEngine) bindMake(f *FuncInfo, call *ast.CallExpr, ms *MakeSite) {
 					ms.DestDesc = r.Desc
 					if !r.Elem {
 						ce.makes[r.Var] = append(ce.makes[r.Var], ms)
+					} else {
+						ce.elemMakes[r.Var] = append(ce.elemMakes[r.Var], ms)
 					}
 				}
 			}
@@ -400,6 +416,32 @@ func (ce *ChanEngine) MakesOf(v *types.Var) []*MakeSite {
 		}
 	}
 	walk(v)
+	return out
+}
+
+// CapsOf returns the capacity classes of the make sites that can reach the
+// channel of op (through its variable, or through the container it is an
+// element of); empty when unknown.
+func (ce *ChanEngine) CapsOf(op *ChanOp) []string {
+	var out []string
+	v := op.Ref.Var
+	if v == nil {
+		return nil
+	}
+	if !op.Ref.Elem {
+		for _, m := range ce.MakesOf(v) {
+			out = append(out, m.Cap)
+		}
+		if c, ok := ce.elemOf[v]; ok {
+			for _, m := range ce.elemMakes[c] {
+				out = append(out, m.Cap)
+			}
+		}
+		return out
+	}
+	for _, m := range ce.elemMakes[v] {
+		out = append(out, m.Cap)
+	}
 	return out
 }
 
